@@ -230,10 +230,17 @@ Definition c15_prefill (vals : list N) : queries N :=
    QDCOUNT questions parse (questions are abstract tokens: equal tokens = equal
    name (case-insensitively), type and class), None when one does not parse. *)
 
+(* resource records as check_stream looks at them *)
+Inductive rr : Type := RSoa (serial : N) | ROther.
+
+(* m_ans: the answer section as check_stream iterates it: None when
+   Message::answer() fails (the question section does not parse), otherwise the
+   records in order, None standing for a record that does not parse *)
 Record msg : Type := mkMsg {
   m_id : N; m_qr : bool; m_tc : bool; m_rcode : N;
   m_qd : N; m_an : N; m_ns : N; m_ar : N;
-  m_qs : option (list N) }.
+  m_qs : option (list N);
+  m_ans : option (list (option rr)) }.
 
 Record req : Type := mkReq { r_id : N; r_qs : list N }.
 
@@ -344,7 +351,13 @@ Definition effective_timeout (c : scfg) (is_stream : bool) : N :=
    insert_req, demux_reply and error() of stream.rs over the query table.
    The ID of a request is the index insert returned (hdr.set_id(index)); the
    entry does not store it. *)
-Record entry : Type := mkEntry { e_caller : N; e_qs : list N; e_multi : bool; e_xfr : N }.
+Inductive xfr : Type :=
+| XAxfrInit | XAxfrFirstSoa (s : N)
+| XIxfrInit | XIxfrFirstSoa (s : N) | XIxfrFirstDiffSoa (s : N) | XIxfrSecondDiffSoa (s : N)
+| XDone | XError.
+
+Record entry : Type := mkEntry { e_caller : N; e_qs : list N; e_multi : bool; e_xfr : xfr; e_axfr : bool }.
+Definition is_axfr_init (x : xfr) : bool := match x with XAxfrInit => true | _ => false end.
 
 Inductive dlv : Type :=
 | DAnswer (m : msg)     (* Ok(answer) *)
@@ -361,7 +374,7 @@ Record sstate : Type := mkSt {
   st_log : list (N * bool * dlv) }.       (* caller, multi?, what it was handed *)
 
 Inductive sevent : Type :=
-| ESubmit (caller : N) (qs : list N) (multi : bool) (unconvertible : bool)
+| ESubmit (caller : N) (qs : list N) (multi : bool) (unconvertible : bool) (x0 : xfr)
 | EReply (m : msg)
 | EFail (e : N).          (* read error, read timeout or write error *)
 
@@ -376,7 +389,7 @@ Definition terminal (multi : bool) (d : dlv) : bool :=
 Section Demux.
 (* check_stream of stream.rs (XFR end detection), left abstract:
    entry, reply -> (eof, new xfr state, is_answer) *)
-Variable check_stream : entry -> msg -> bool * N * bool.
+Variable check_stream : entry -> msg -> bool * xfr * bool.
 Variable idle_zero : bool.     (* status.idle_timeout.is_zero() *)
 
 Definition after_reply (q : queries entry) (c : conn) : conn :=
@@ -387,11 +400,11 @@ Definition after_reply (q : queries entry) (c : conn) : conn :=
 
 Definition s_step (s : sstate) (ev : sevent) : outcome sstate :=
   match ev with
-  | ESubmit c qs multi bad =>
+  | ESubmit c qs multi bad x0 =>
       match st_conn s with
       | CDown e => Ok (mkSt (st_q s) (st_conn s) (st_sent s) (st_log s ++ [(c, multi, DError e)]))
       | COpen =>
-          do (q', oi) <- q_insert (st_q s) (mkEntry c qs multi 0);
+          do (q', oi) <- q_insert (st_q s) (mkEntry c qs multi x0 (is_axfr_init x0));
           match oi with
           | None => Ok (mkSt q' COpen (st_sent s) (st_log s ++ [(c, multi, DError 11)]))
           | Some idx =>
@@ -415,7 +428,7 @@ Definition s_step (s : sstate) (ev : sevent) : outcome sstate :=
                 if eof then
                   Ok (mkSt q' (after_reply q' COpen) (st_sent s) (log' ++ [(e_caller e, true, DEof)]))
                 else
-                  do q'' <- q_insert_at q' id (mkEntry (e_caller e) (e_qs e) true x);
+                  do q'' <- q_insert_at q' id (mkEntry (e_caller e) (e_qs e) true x (e_axfr e));
                   Ok (mkSt q'' (after_reply q'' COpen) (st_sent s) log')
               else
                 let d := if is_answer (mkReq id (e_qs e)) m then DAnswer m else DWrong in
@@ -436,6 +449,75 @@ Definition s_init : sstate := mkSt q_new COpen [] [].
 Definition s_run (evs : list sevent) : outcome sstate :=
   fold_left (fun acc ev => do s <- acc; s_step s ev) evs (Ok s_init).
 End Demux.
+
+(* ---- net/client/request.rs RequestMessageMulti::is_answer ---- *)
+Definition is_answer_multi (axfr : bool) (r : req) (a : msg) : bool :=
+  if isans_reject (m_qr a) (m_id a) (r_id r) then false
+  else if isans_hdr_only (m_rcode a) (m_qd a) (m_an a) (m_ns a) (m_ar a) then true
+  else if (if multi_axfr_rule then axfr && (m_qd a =? 0) else false) then true
+  else if isans_qd_reject (m_qd a) (lenN (r_qs r)) then false
+  else
+    let e := match m_qs a with Some qs => list_eqb qs (r_qs r) | None => false end in
+    if isans_q_equal then e else negb e.
+
+(* ---- net/client/stream.rs check_stream ----
+   the record loop: inl eof = early return (eof, Error, false); inr st = the
+   state after the last record.  (The arm for XFRState::Error inside the loop
+   is panic!("should not be here"): check_stream returns before the loop in
+   that state and the loop never continues with it.) *)
+Fixpoint xfr_records (st : xfr) (rs : list (option rr)) : bool + xfr :=
+  match rs with
+  | [] => inr st
+  | None :: _ => inl true
+  | Some r :: rest =>
+      match st, r with
+      | XAxfrInit, RSoa s => xfr_records (XAxfrFirstSoa s) rest
+      | XAxfrInit, ROther => inl false
+      | XAxfrFirstSoa serial, RSoa s => if serial =? s then xfr_records XDone rest else inl false
+      | XAxfrFirstSoa _, ROther => xfr_records st rest
+      | XIxfrInit, RSoa s => xfr_records (XIxfrFirstSoa s) rest
+      | XIxfrInit, ROther => inl false
+      | XIxfrFirstSoa serial, RSoa s =>
+          if serial =? s then xfr_records XDone rest else xfr_records (XIxfrFirstDiffSoa serial) rest
+      | XIxfrFirstSoa serial, ROther => xfr_records (XAxfrFirstSoa serial) rest
+      | XIxfrFirstDiffSoa serial, RSoa _ => xfr_records (XIxfrSecondDiffSoa serial) rest
+      | XIxfrFirstDiffSoa _, ROther => xfr_records st rest
+      | XIxfrSecondDiffSoa serial, RSoa s =>
+          if serial =? s then xfr_records XDone rest else xfr_records (XIxfrFirstDiffSoa serial) rest
+      | XIxfrSecondDiffSoa _, ROther => xfr_records st rest
+      | XDone, _ => inl false
+      | XError, _ => inl false
+      end
+  end.
+
+(* (eof, new state, is_answer); the request's ID is the slot index = the ID of
+   the reply that found the entry *)
+Definition check_stream_m (e : entry) (a : msg) : bool * xfr * bool :=
+  let isans := is_answer_multi (e_axfr e) (mkReq (m_id a) (e_qs e)) a in
+  let body :=
+    if negb (m_rcode a =? 0) then
+      (if negb isans then (false, XError, false) else (true, e_xfr e, true))
+    else
+      match m_ans a with
+      | None => (true, XError, false)
+      | Some rs =>
+          match xfr_records (e_xfr e) rs with
+          | inl eof => (eof, XError, false)
+          | inr st =>
+              match st with
+              | XAxfrInit | XIxfrInit => (false, XError, false)
+              | XAxfrFirstSoa _ | XIxfrFirstDiffSoa _ | XIxfrSecondDiffSoa _ => (false, st, true)
+              | XIxfrFirstSoa _ => (true, XDone, true)
+              | XDone => (true, XDone, true)
+              | XError => (false, XError, false)
+              end
+          end
+      end in
+  match e_xfr e with
+  | XAxfrInit | XIxfrInit => if negb isans then (false, XError, false) else body
+  | XDone | XError => (false, XError, false)
+  | _ => body
+  end.
 
 (* ---- entry points for the driver ---- *)
 Definition c15_is_answer (r : req) (a : msg) : bool := is_answer r a.
@@ -482,8 +564,8 @@ Fixpoint req_deadline (timeout start : N) (arrivals : list N) : N :=
            end
   end.
 
-(* the demultiplexer with single-response requests only (check_stream unused) *)
+(* the demultiplexer with the concrete check_stream *)
 Definition c15_demux (idle_zero : bool) (evs : list sevent) : outcome sstate :=
-  s_run (fun _ _ => (false, 0, false)) idle_zero evs.
+  s_run check_stream_m idle_zero evs.
 Definition c15_pending (c : N) (s : sstate) : bool :=
   existsb (fun e => e_caller e =? c) (flatten_opt (q_vec (st_q s))).
